@@ -243,13 +243,22 @@ def St.cloneOps (st : St) (d : DefJ) : CloneOps Nat :=
     cloneFrom := fun p x y => (st.cloneF.get? (d.tyOf p, x, y)).getD 999,
     method := fun m x => (st.methV.get? ("clone", m, x)).getD 999 }
 
-def St.dbgOps (st : St) (d : DefJ) : DbgOps Nat :=
-  { fmt := fun p alt x => match st.dbgV.get? (d.tyOf p, x) with
+/-- `wide`: the leaf texts measured under a format specification that also carries a width and a precision
+    (`{:7.2?}` / `{:#7.2?}`): the builders of `core::fmt` hand the formatter, options included, to every value and write
+    names, keys and punctuation with `write_str`, so the structure is the same and only the leaf texts differ. -/
+def St.dbgOps (st : St) (d : DefJ) (wide : Bool := false) : DbgOps Nat :=
+  { fmt := fun p alt x => match st.dbgV.get? (if wide then d.tyOf p ++ "@w" else d.tyOf p, x) with
       | some (c, pr) => if alt then pr else c
       | none => "?",
-    method := fun m alt x => match st.methD.get? (m, x) with
+    method := fun m alt x => match st.methD.get? (if wide then m + 100000 else m, x) with
       | some (c, pr) => if alt then pr else c
       | none => "?" }
+
+/-- the format selector of a `dbg` request: `false` = `{:?}`, `true` = `{:#?}`, `2` = `{:7.2?}`, `3` = `{:#7.2?}` → (alt, wide) -/
+def fmtSpec (j : Json) : Bool × Bool :=
+  match j.getBool? with
+  | .ok b => (b, false)
+  | .error _ => (jnat j == 3, true)
 
 def showWrites (ws : List (Write String)) : Json :=
   Json.arr (ws.toArray.map fun w => match w with
@@ -436,9 +445,11 @@ def handle (st : St) (j : Json) : St × Option Json :=
   else if op == "methv" then
     ({ st with methV := st.methV.insert (jstr a[1]!, jnat a[2]!, jnat a[3]!) (jnat a[4]!) }, none)
   else if op == "dbgv" then
-    ({ st with dbgV := st.dbgV.insert (jstr a[1]!, jnat a[2]!) (jstr a[3]!, jstr a[4]!) }, none)
+    let st := { st with dbgV := st.dbgV.insert (jstr a[1]!, jnat a[2]!) (jstr a[3]!, jstr a[4]!) }
+    (if a.size ≥ 7 then { st with dbgV := st.dbgV.insert (jstr a[1]! ++ "@w", jnat a[2]!) (jstr a[5]!, jstr a[6]!) } else st, none)
   else if op == "methd" then
-    ({ st with methD := st.methD.insert (jnat a[1]!, jnat a[2]!) (jstr a[3]!, jstr a[4]!) }, none)
+    let st := { st with methD := st.methD.insert (jnat a[1]!, jnat a[2]!) (jstr a[3]!, jstr a[4]!) }
+    (if a.size ≥ 7 then { st with methD := st.methD.insert (jnat a[1]! + 100000, jnat a[2]!) (jstr a[5]!, jstr a[6]!) } else st, none)
   else if op == "dbg" then
     -- ["dbg", def, va, [fa], alt] → output string
     match st.defs.get? (jnat a[1]!) with
@@ -446,8 +457,8 @@ def handle (st : St) (j : Json) : St × Option Json :=
     | some d =>
       let t := d.dbgType
       let x : Val Nat := ⟨jnat a[2]!, natList a[3]!⟩
-      let alt := jbool a[4]!
-      let ops := st.dbgOps d
+      let (alt, wide) := fmtSpec a[4]!
+      let ops := st.dbgOps d wide
       let m : Json := match Gen.Debug.body t with
         | .error _ => Json.str "<rejected>"
         | .ok bd => match Sem.evalFmt ops t bd x alt with
